@@ -1,34 +1,10 @@
 #!/usr/bin/env python3
-# runs the hand-written mutants of selftest/mutants.py against scratch worktrees of /repo HEAD:
-# each must make the named check exit 1 and mention the expected rule.  usage: tools/selftest.py [ids or property ids...]
-import sys, os, subprocess, shutil, json
-from concurrent.futures import ThreadPoolExecutor
+# runs the hand-written mutants of selftest/mutants.py (all, or those of the given property ids / mutant ids)
+import sys, os
 HERE = os.path.dirname(os.path.dirname(os.path.abspath(__file__)))
-sys.path.insert(0, os.path.join(HERE, 'selftest'))
-from mutants import M
-sel = set(sys.argv[1:])
-todo = [x for x in M if not sel or x[0] in sel or x[1] in sel]
-def run(x):
-    mid, prop, rule, file, old, new, note = x
-    w = '/tmp/selftest.%d.%s' % (os.getpid(), mid)
-    subprocess.run(['git', '-C', '/repo', 'worktree', 'add', '-q', '--detach', w, 'HEAD'], check=True)
-    try:
-        p = os.path.join(w, 'src', 'cocls', file)
-        s = open(p).read()
-        if s.count(old) != 1 and not (note.endswith('[all]') and s.count(old) > 1):
-            return (mid, prop, 'PATCH-FAILED (%d matches)' % s.count(old), note)
-        open(p, 'w').write(s.replace(old, new))
-        cc = subprocess.run(['clang++', '-std=gnu++20', '-fsyntax-only', '-Wno-everything', '-I' + os.path.join(w, 'src'), '-I' + os.path.join(HERE, 'drivers')] + [os.path.join(HERE, 'drivers', d) for d in ('inst_future.cpp',)], capture_output=True, text=True)
-        env = dict(os.environ, COCLS_REPO=w, COCLS_NO_EVIDENCE='1')
-        r = subprocess.run(['python3', os.path.join(HERE, 'engine', 'check.py'), prop, '--tier', 'quick'], capture_output=True, text=True, env=env, cwd=HERE)
-        hit = [l for l in r.stdout.splitlines() if l.startswith('  violation') and rule in l]
-        verdict = 'caught' if (r.returncode == 1 and hit) else ('WRONG-RULE rc=%d' % r.returncode if r.returncode == 1 else 'MISSED rc=%d' % r.returncode)
-        extra = '' if verdict == 'caught' else ' | ' + ' / '.join(l.strip()[:160] for l in (r.stdout + r.stderr).splitlines() if 'violation' in l or 'BROKEN' in l)[:400]
-        return (mid, prop, verdict + extra, note)
-    finally:
-        subprocess.run(['git', '-C', '/repo', 'worktree', 'remove', '--force', w], capture_output=True)
-with ThreadPoolExecutor(max_workers=6) as ex:
-    res = list(ex.map(run, todo))
+sys.path.insert(0, os.path.join(HERE, 'engine'))
+from coclint import mutate
+res = mutate.run(sys.argv[1:])
 bad = 0
 for mid, prop, v, note in res:
     print('%-6s %-4s %-40s %s' % (mid, prop, note[:40], v))
